@@ -152,6 +152,15 @@ class Interp(object):
         (resolved through the MRO of the concrete class under analysis); None when not constant"""
         if isinstance(e, (ast.Tuple, ast.List)) and all(isinstance(x, ast.Constant) for x in e.elts):
             return [x.value for x in e.elts]
+        if isinstance(e, ast.Name) and e.id not in env.get('__c__', {}):
+            # a module-level constant tuple (assigned once at module level, never inside a function of the module)
+            tree = getattr(self.m, 'tree', {}).get(env.get('__mod__'))
+            if tree is not None:
+                defs = [st for st in tree.body if isinstance(st, ast.Assign) and any(isinstance(t_, ast.Name) and t_.id == e.id for t_ in st.targets)]
+                rebound = any(isinstance(x, ast.Global) and e.id in x.names for x in ast.walk(tree))
+                if len(defs) == 1 and not rebound and isinstance(defs[0].value, (ast.Tuple, ast.List)) and all(isinstance(x, ast.Constant) for x in defs[0].value.elts):
+                    return [x.value for x in defs[0].value.elts]
+            return None
         if isinstance(e, ast.Attribute):
             b = e.value
             on_self = isinstance(b, ast.Name) and (b.id in env['__self__'] or b.id == 'cls')
